@@ -112,6 +112,35 @@ PROPS = {
              'cases': {'quick': 3000, 'thorough': 100000}, 'shards': {'quick': 1, 'thorough': 1}},
         ],
     },
+    'C14': {
+        'rule': 'generated thread programs (2..16 threads x 20..200 const operations on shared elements/tangents and static helpers, four first-use orderings, generated yield points), one fresh process per program; non-trivial: >= 2 threads performed the first use of the same static helper with overlapping time intervals',
+        'engine': 'generated thread programs + ThreadSanitizer',
+        'assumptions': ['oracle = ThreadSanitizer (happens-before race detection, g++ and clang++ runtimes) + bit-identity of every per-thread result with a single-threaded re-evaluation',
+                        'schedules are explored (many launches, first uses released from a spin barrier), not enumerated: the harness does not own the scheduler',
+                        'the harness synchronises only with relaxed atomics so that it cannot hide a library race from TSan'],
+        'level_note': 'exploration of schedules only; a race on a rare value-dependent path is found only as often as the generator takes that path; trusts ThreadSanitizer',
+        'stages': [
+            {'kind': 'custom', 'name': 'tsan', 'module': 'c14', 'fn': 'run', 'replay_fn': 'replay'},
+        ],
+    },
+    'C15': {
+        'rule': 'end points A and B = A (+) d with relative rotation < pi (strata of 1.3), t in {0,1}, (0,1) dense, outside [0,1] (+-1e-12..1e3, NaN, inf), the three methods, degrees 0..8, end velocities of norm 0..10, left translations g; exact-rational evaluation of the smoothing polynomial; non-trivial: 0<t<1, A != B, non-zero velocities for CUBIC/CNSMOOTH',
+        'assumptions': ASSUME_ORACLE + ['smoothing_phi instantiated over the exact scalar vf::Rat for the monotonicity clause (2000-point grid per degree once per process + generated rational pairs)'],
+        'stages': [
+            {'src': 'C15.cpp', 'configs': D_GROUPS + ['SE2f', 'SE3f', 'B_SE3_SO2_R3_d'],
+             'cases': {'quick': 5000, 'thorough': 200000}, 'shards': {'quick': 1, 'thorough': 2}},
+        ],
+    },
+    'C17': {
+        'rule': 'cells (N, degree, k, closed): single generated cells incl. the invalid-argument classes, and sweep cases that enumerate the whole box 3<=N<=16, 2<=d<=N, 1<=k<=4, open/closed (952 cells) on a generated trajectory (consecutive relative rotation < pi); non-trivial: >= 2 windows and degree >= 3',
+        'assumptions': ASSUME_ORACLE + ['AddressSanitizer build over an exact-size heap trajectory: reading anything but its elements is reported; ASAN hard_rss_limit_mb=4000 and the per-shard timeout bound non-termination (a process killed by either is reported as a violation of C17, whose statement includes termination)'],
+        'stages': [
+            {'src': 'C17.cpp', 'configs': ['SE2d', 'SO3d', 'SE3d', 'R3d'], 'tag': '-asan',
+             'defs': ['-fsanitize=address,undefined', '-fno-sanitize-recover=undefined', '-fno-omit-frame-pointer'],
+             'env': {'ASAN_OPTIONS': 'hard_rss_limit_mb=4000:detect_leaks=0:allocator_may_return_null=1'},
+             'cases': {'quick': 160, 'thorough': 6000}, 'shards': {'quick': 2, 'thorough': 4}, 'timeout': {'quick': 900, 'thorough': 7200}},
+        ],
+    },
     'C11': {
         'rule': 'bundle layouts covering every group first/middle/last, repeated and single, differing DoF/RepSize/Dim/matrix sizes; per-element inputs of 1.3; non-trivial: >= 2 elements with different DoF and input non-identity in every element',
         'assumptions': ['offsets are recomputed by the harness as prefix sums of the documented per-group sizes (engine/vf_ref.cpp Spec), not read from manif traits',
